@@ -48,6 +48,7 @@ def check(rep: Report, ctx: Ctx) -> None:
     r78(rep, ctx)
     r79(rep, ctx)
     r710(rep, ctx)
+    r711(rep, ctx)
 
 
 def r71(rep: Report, ctx: Ctx, det: FuncInfo) -> None:
@@ -134,17 +135,22 @@ def r72_73(rep: Report, ctx: Ctx, det: FuncInfo) -> None:
     # which bindings of that name reach the loop event?
     ok, why = False, f"sub_graph = {unparse(a_sub)}"
     if isinstance(a_sub, ast.Name):
-        binds = [b for b in defs.of(a_sub.id) if b.stmt.lineno < cm[0].lineno]
-        last = max(binds, key=lambda b: b.stmt.lineno) if binds else None
-        if last is not None and isinstance(last.value, ast.Call) and \
-                call_name(last.value) == det.name:
-            arg = last.value.args[0] if last.value.args else None
-            ok = isinstance(arg, ast.Name) and arg.id == a_sub.id
-            why = f"{unparse(last.stmt)} before create_loop_event"
-        elif last is not None:
-            why = (f"'{a_sub.id}' reaches create_loop_event straight from "
-                   f"'{unparse(last.stmt)[:60]}': nested cycles stay inside "
-                   "the body")
+        # every definition that reaches the loop-event construction is the
+        # result of the recursive decomposition (flow-sensitive)
+        reaching = ctx.reach(det).at(cm[0], a_sub.id)
+        good = [b for b in reaching if isinstance(b.value, ast.Call)
+                and call_name(b.value) == det.name and b.value.args
+                and isinstance(b.value.args[0], ast.Name)
+                and b.value.args[0].id == a_sub.id]
+        raw = [b for b in reaching if b not in good]
+        ok = bool(good) and not raw
+        if ok:
+            why = f"{unparse(good[0].stmt)} before create_loop_event"
+        elif raw:
+            why = (f"'{a_sub.id}' can reach create_loop_event straight from "
+                   f"'{unparse(raw[0].stmt)[:60]}' (the recursive call is "
+                   "missing or conditional): nested cycles stay inside the "
+                   "body, which then cannot be ordered")
     rep.ob("R7.2", "the body passes through detect_loops before it is "
            "wrapped", ok, fi=det, node=cm[0], detail=why)
     rep.ob("R7.2", "one recursive call", len(rec) == 1, fi=det,
@@ -664,3 +670,72 @@ def r710(rep: Report, ctx: Ctx) -> None:
                              "the loop are cut although they are not "
                              "loop-back edges: an inner cycle disappears "
                              "instead of becoming a nested loop"))
+
+
+# --------------------------------------------------------------------------
+def r711(rep: Report, ctx: Ctx) -> None:
+    """Exhaustiveness of the break handling when the parent graph is
+    rewired: the break events are split between two handlers; the set given
+    to the second must be the complement, within ``loop.break_events``, of
+    the set given to the first - a break event handled by neither keeps no
+    edge from the loop node, and everything behind it is pruned (events
+    lost from the nesting)."""
+    rep.rule("R7.11", "every break event of a loop is re-attached by exactly "
+             "one of the two handlers (the second gets the complement of the "
+             "first)", 1)
+    fi = ctx.func("calculate_updated_graph_with_loop_event")
+    reach = ctx.reach(fi)
+    lp = fi.params()[0]
+    h_end = ctx.func("update_graph_for_loop_end_events")
+    h_brk = ctx.func("update_graph_for_break_events_with_path_to_root_event")
+    firsts = []
+    for c in calls_in(ctx, fi, h_end):
+        a = actual(c, h_end, h_end.params()[0])
+        if isinstance(a, ast.Name):
+            firsts.append((c, a.id))     # the call that re-attaches breaks
+    seconds = calls_in(ctx, fi, h_brk)
+    ok, why = False, "handlers not found"
+    if len(firsts) == 1 and len(seconds) == 1:
+        a2 = actual(seconds[0], h_brk, h_brk.params()[0])
+        v = reach.resolve(a2, at=seconds[0]) if a2 is not None else None
+        ok = isinstance(v, ast.BinOp) and isinstance(v.op, ast.Sub) \
+            and unparse(v.left) == f"{lp}.break_events" \
+            and isinstance(v.right, ast.Name) and v.right.id == firsts[0][1]
+        why = (f"first handler gets '{firsts[0][1]}', second gets "
+               f"'{unparse(v)[:80]}'"
+               + ("" if ok else " -- not the complement of the first "
+                  "handler's set: a break event can be handled by neither "
+                  "(or by both)"))
+    rep.ob("R7.11", "break events are partitioned between the two handlers",
+           ok, fi=fi, node=seconds[0] if seconds else fi.node, detail=why)
+    exit_fanout_recorded(rep, ctx, "R7.11")
+
+
+def exit_fanout_recorded(rep: Report, ctx: Ctx, rule: str) -> None:
+    """(shared with C01)  The exit fan-out of the end events is recorded
+    before the exit edges are cut (create_sub_graph_of_loop)."""
+    # ---- the exit fan-out of the end events is recorded before the exit
+    # ---- edges are cut (create_sub_graph_of_loop)
+    sub = ctx.func("create_sub_graph_of_loop")
+    rec = ctx.func("create_end_event_to_event_lists_mapping")
+    cut = ctx.func("remove_loop_edges")
+    add = ctx.func("add_start_and_end_events_to_graph")
+    scfg = ctx.cfg(sub)
+    rc, cc, ac = calls_in(ctx, sub, rec), calls_in(ctx, sub, cut), \
+        calls_in(ctx, sub, add)
+    ok = len(rc) == 1 and len(cc) == 1 and len(ac) == 1
+    if ok:
+        ok = scfg.dominates(scfg.container(rc[0]), scfg.container(cc[0]))
+        a = actual(ac[0], add, "end_event_to_event_lists")
+        src = ctx.reach(sub).resolve(a, at=ac[0]) if a is not None else None
+        ok = ok and src is rc[0]
+    rep.ob(rule, "the exit fan-out of the loop's end events is recorded "
+           "before the exit edges are cut, and reaches the dummy end",
+           ok, fi=sub, node=rc[0] if rc else sub.node,
+           detail="create_end_event_to_event_lists_mapping(..) dominates "
+                  "remove_loop_edges(..) and feeds "
+                  "add_start_and_end_events_to_graph(end_event_to_event_"
+                  "lists=..)" + ("" if ok else " -- taken after the cut the "
+                                 "mapping is empty: the dummy end gets a "
+                                 "single successor set and the branch count "
+                                 "of the loop's exit is lost"))
